@@ -1,5 +1,6 @@
 import SnaxVerif.Lemmas.SetupVals
 import SnaxVerif.Lemmas.SetupValsPhs
+import SnaxVerif.Lemmas.SetupValsGemmx
 /-!
 # C08 — generated configuration values line up with field names
 
@@ -262,6 +263,67 @@ theorem aligned_gemmx (v : Variant) (hv : v.f11 = true) (cfg : List Streamer) (n
   | other =>
     unfold gemmxParams at hP
     simp [hk] at hP
+
+/-- The count facts of `aligned_gemmx`, as a lemma of their own. -/
+theorem gemmx_counts (v : Variant) (hv : v.f11 = true) (n : Nat) (op : GemmxOp) (P : GParams)
+    (hP : gemmxParams v n op = .ok P)
+    (hchan : ∀ r, op.post = some r → (r.shifts.length = 1 ∨ n ≤ r.shifts.length) ∧
+      (r.mults.length = 1 ∨ n ≤ r.mults.length)) :
+    P.shifts.length = ceil4 n ∧ P.mults.length = n := by
+  cases hk : op.kernel with
+  | mac zp =>
+    cases hi : op.i8out with
+    | true => exact SV.gemmx_counts_i8 v n op P zp hk hi hP hchan
+    | false => exact gemmx_counts_fixed v hv n op P hP (Or.inr hi)
+  | rescale r => exact gemmx_counts_fixed v hv n op P hP (Or.inl ⟨r, hk⟩)
+  | other =>
+    unfold gemmxParams at hP
+    simp [hk] at hP
+
+/-- **Absolute form** (no parameter record in the statement). `gemmxFullSpec` reads the meaning of every register off
+the OPERATION: `K = steps(A) // M`, `N = 1`, `M` = non-reduction steps of the output stream (rescale only: 1, 1,
+steps), `subtractions = zp_a & 255 | (zp_b & 255) << 8` with the run-time zero points of the qmac, `csr0 = min | max |
+out_zp | in_zp` (8 bits each, offsets 24/16/8/0), `csr1` = double round, `shift_i` = the shifts of channels 4i…4i+3
+with channel 4i in the low byte, `mult_i` = multiplier of channel i, loop bound, bypass — rescale parameters from the
+trailing rescale of the region (single values broadcast to n channels) or the defaults; the other registers by the
+streamer meaning. With F11, for every configuration, geometry, pattern list, operand list and region body the
+generator accepts; only clause `hchan` (D81). The packed words are proved as 32-bit identities (`pack4_den`,
+`chunks4_get`), no longer judged by the oracle only. -/
+theorem aligned_gemmx_abs (v : Variant) (hv : v.f11 = true) (cfg : List Streamer) (n : Nat) (op : GemmxOp)
+    (vs : List Val) (h : gemmxVals v cfg n op = .ok vs)
+    (hchan : ∀ r, op.post = some r → (r.shifts.length = 1 ∨ n ≤ r.shifts.length) ∧
+      (r.mults.length = 1 ∨ n ≤ r.mults.length)) :
+    AlignedAt (gemmxFullSpec cfg n op) (gemmxFields cfg n) vs := by
+  obtain ⟨P, hP, hal⟩ := gemmxVals_aligned v cfg n op vs h
+  obtain ⟨hs, hm⟩ := gemmx_counts v hv n op P hP hchan
+  obtain ⟨hsc, hsh, hmu⟩ := gemmx_kernel_spec v hv cfg n op P hP hs
+  refine ((hal hs hm).mono ?_).index
+  intro f d hd
+  cases f with
+  | K => show gemmxSpec n op _ = some d; rw [← hsc _ (by simp)]; exact hd
+  | N => show gemmxSpec n op _ = some d; rw [← hsc _ (by simp)]; exact hd
+  | M => show gemmxSpec n op _ = some d; rw [← hsc _ (by simp)]; exact hd
+  | subtractions => show gemmxSpec n op _ = some d; rw [← hsc _ (by simp)]; exact hd
+  | csr0 => show gemmxSpec n op _ = some d; rw [← hsc _ (by simp)]; exact hd
+  | csr1 => show gemmxSpec n op _ = some d; rw [← hsc _ (by simp)]; exact hd
+  | temporalLoopBound => show gemmxSpec n op _ = some d; rw [← hsc _ (by simp)]; exact hd
+  | bypassSIMD => show gemmxSpec n op _ = some d; rw [← hsc _ (by simp)]; exact hd
+  | shift i =>
+    by_cases hi : i < ceil4 n
+    · show gemmxSpec n op _ = some d; rw [← hsh i hi]; exact hd
+    · have : P.shifts[i]? = none := by rw [List.getElem?_eq_none_iff]; omega
+      simp [gemmxMeaning, this] at hd
+  | mult i =>
+    by_cases hi : i < n
+    · show gemmxSpec n op _ = some d; rw [← hmu i hi]; exact hd
+    · have : P.mults[i]? = none := by rw [List.getElem?_eq_none_iff]; omega
+      simp [gemmxMeaning, this] at hd
+  | _ => simpa [gemmxMeaning, gemmxFullSpec] using hd
+
+/-- the spec is not vacuous: channel 4i sits in the low byte, and csr0 keeps negative fields to 8 bits -/
+example : shiftWord [1, 2, 3, 4, 5, 6, 7, 8] 1 = some 0x08070605#32 ∧
+    csr0Spec { inZp := -1, outZp := 2, maxI := 127, minI := -128, dr := 0, shifts := [], mults := [] } = 0x807f02ff#32 := by
+  decide
 
 /-- What the mac/qmac kernel registers carry, for every region shape: `M` = number of non-reduction steps of the
 output stream (operand 2 for i8, the last operand for i32), `N = 1`, `K = steps(A) // M`; with i8 output csr0/csr1,
